@@ -1,5 +1,5 @@
 #!/usr/bin/env python3
-"""Markdown table of the rounds 2 and 3 (and C04-C06 round 1) seeded changes from seeded/*/verif_result.json + short descriptions."""
+"""Markdown table of the rounds 2, 3 and 4 (and C04-C06 round 1) seeded changes from seeded/*/verif_result.json + short descriptions."""
 import json, glob, os, re
 ROOT = os.path.dirname(os.path.dirname(os.path.abspath(__file__)))
 DESC = {
@@ -92,6 +92,36 @@ DESC = {
  'C11-6': '(round 3) `relocateNamedObjects` returns early when a child needs another pass (forward reference before its multi-segment-named parent)',
  'C12-5': '(round 3, dependency) `PeekByte` bounded by the stream, not the package (NameString at a package end followed by a prefix char: hang)',
  'C12-6': '(round 3, dependency) `findRelative` length guard `segIndex >= exprLen` (1-3 leftover bytes matching a sibling name: index out of range)',
+
+ # ---- round 4: cooperating sites / multi-step histories / faults at a particular point ----
+ 'C01-7': '(round 4) bit position helper takes the block from the pool-relative frame but the bit from the absolute frame (pool start not 64-aligned)',
+ 'C01-8': '(round 4, cooperating sites) boot allocator remembers `lastAllocRegion`; the unchanged replay in `reserveEarlyAllocatorFrames` does not reset it (early allocations crossing from one region into a later one)',
+ 'C03-7': '(round 4, multi-step) scan-position cache rewound with a non-lexicographic test (alloc in pool 1, free in pool 0 word >= 1, free in pool 1 word 0: a frame is lost)',
+ 'C03-8': '(round 4, cooperating sites) the same `lastAllocRegion` change, found independently (1-frame first region, kernel in the second)',
+ 'C05-7': '(round 4, cooperating sites) `EarlyReserveRegion` leaves an unmapped guard page between reservations; the copy loop of `setupPDTForKernel` assumes the range is mapped (two or more early reservations)',
+ 'C05-8': '(round 4) section page count as `size>>12` plus one if start or size is unaligned (start offset + size remainder crossing a page: last page unmapped)',
+ 'C07-7': '(round 4, cooperating sites + fault) `MapRegion` hands its reservation back with the UNROUNDED size when `mapFn` fails (cursor unaligned for every later reservation)',
+ 'C07-8': '(round 4, cooperating sites) shared `mm.PageCount` helper returns uint32 (sizes >= 2^44: reserved but nothing mapped)',
+ 'C08-7': '(round 4, cooperating sites) yield moved into Go, assembly returns the last observed word: a dirty read of 0 on the last permitted attempt is taken for an acquisition (real parallel cores)',
+ 'C08-8': '(round 4, multi-step) `MOVL $1, BX` hoisted above the retry label (held, spin, released, retry: exchanges 0 and reports success)',
+ 'C09-7': '(round 4, cooperating sites) ticket lock packed into the 32-bit word, Release as `AddUint32(1)`: the serving half overflows after exactly 65536 acquire/release cycles and the next call blocks forever',
+ 'C09-8': '(round 4, schedule + unusual input) `AllocFrame` takes the lock late and does not re-check `freeCount` (pool size not a multiple of 64, down to its last frame, a second caller waiting on the lock)',
+ 'C10-7': '(round 4, cooperating sites) `ElfSectionFlag` narrowed to uint8 (section flags >= 0x100, e.g. .tbss 0x403)',
+ 'C10-8': '(round 4, cooperating sites) tags indexed once in `SetInfoPtr`, last tag of a type wins (two tags of the same type)',
+ 'C12-7': '(round 4, cooperating sites) new `amlStreamReader.Skip` checks `offset+count > pkgEnd` in uint32; `parseByteList` relies on it alone (Connection buffer with a DWord size near 2^32)',
+ 'C12-8': '(round 4, multi-step) `relocateNamedObjects(0)` skipped when the merge pass merged nothing: its counter is never reset and the resolve loop never ends (a relocated prefixed name plus a Scope whose target never resolves: hang)',
+ 'C14-7': '(round 4, multi-step) checksum length / XSDT choice in locals outside the scan loop, never reset (revision >= 1 decoy with a bad checksum below a valid revision-0 RSDP)',
+ 'C14-8': '(round 4, cooperating sites) `ChecksumLength()` picks 36 bytes for revision >= 2, `locateRSDT` still follows the XSDT for revision != 0 (revision-1 RSDP)',
+ 'C16-7': '(round 4, cooperating sites) `SetOutputSink` drains the ring through a 256-byte scratch buffer and stops at the first short read (more than 2048 early bytes)',
+ 'C16-8': '(round 4, multi-step) `onConsoleInit` guard clause `if !ok { return }` for the font setter also skips the TTY link (console without FontSetter initialised after the TTY)',
+ 'C17-7': '(round 4, cooperating sites) new `lineOffset` helper adds `viewportY`; `lf` passes absolute lines (scrollback > 0, buffer scroll with viewportY != 0: panic)',
+ 'C17-8': '(round 4, cooperating sites) end-of-line wrap moved from `doWrite` to `WriteByte`; the tab loop relied on the per-character wrap (tab crossing a line end)',
+ 'C18-7': '(round 4, cooperating sites) vesa constructor precomputes `rowBytes = (width*bpp+7)>>3`, `Scroll` copies that (15 bpp: the right-most sixteenth of each row is not scrolled)',
+ 'C18-8': '(round 4, multi-step) `needsRedraw` flag not set by the `lf` branch that only advances `viewportY` (inactive terminal receives only line feeds, then is activated)',
+ 'C19-7': '(round 4, cooperating sites) `stride = pitch / bytesPerPixel` truncates; `Scroll` block-copies when `stride == width` (padding smaller than one pixel is dragged along)',
+ 'C19-8': '(round 4) shared `clipSpan` with an inclusive end treats length 0 as a wrap (Fill with width or height 0 paints to the edge; both consoles)',
+ 'C20-7': '(round 4) `parser.ParseDir` package/file maps ranged over (two or more annotated files in one directory)',
+ 'C20-8': '(round 4, cooperating sites) `Context.AddRedirect` stores the pointer it is given; `FindRedirects` reuses one struct per function (several annotations on one function)',
 }
 def short(vs):
     out = []
@@ -114,7 +144,7 @@ print('| Seed | Change (what it needs) | First run | Final run |')
 print('|---|---|---|---|')
 for d in sorted(glob.glob(os.path.join(ROOT, 'seeded', 'C*'))):
     s = os.path.basename(d)
-    if s not in DESC:
+    if s not in DESC or not os.path.exists(os.path.join(d, 'verif_result.json')):
         continue
     r = json.load(open(os.path.join(d, 'verif_result.json')))
     first = r.get('first_run', {}).get('violations', r['violations'])
